@@ -310,3 +310,12 @@ pub fn au_decode_data(nd: usize, cap_in: usize, cap_out: usize, sched: &[(usize,
     witness!("schedule executed and outputs compared");
     std::mem::forget((a, b, input));
 }
+
+/// ZeroCrossing clock recovery (sps 2.0): output independent of chunking / output space.
+pub fn zero_crossing(l: usize, cap: usize, sched: &[(usize, usize)], br: usize) {
+    let input = sym_vec::<f32>(l);
+    let mk = |src: ReadStream<f32>| ZeroCrossing::new(src, 2.0, 0.0);
+    let (a, b) = ab_11(&mk, &input, &[], cap, sched, l + 1, 3, br);
+    std::mem::forget(input);
+    finish(a, b);
+}
